@@ -88,6 +88,38 @@ def elem_type(ty):
     return inner
 
 
+PAY_PASS = {"map_err", "with_context", "context", "ok_or_else", "ok_or", "ok", "branch", "copied", "cloned", "or_else"}
+_pay_ty = re.compile(r"^core::(?:option::Option|result::Result|ops::ControlFlow)<(.*)>$")
+
+
+def payload_type(ty):
+    """the success payload type of Option<T>/Result<T, E>/ControlFlow<B, C> when it is an integer-like type"""
+    if not ty:
+        return None
+    m = _pay_ty.match(ty)
+    if not m:
+        return None
+    inner = m.group(1)
+    parts, depth, cur = [], 0, ""
+    for ch in inner:
+        if ch in "<([":
+            depth += 1
+        elif ch in ">)]":
+            depth -= 1
+        if ch == "," and depth == 0:
+            parts.append(cur.strip()); cur = ""
+        else:
+            cur += ch
+    parts.append(cur.strip())
+    if ty.startswith("core::ops::ControlFlow<"):
+        pt = parts[1] if len(parts) > 1 else None
+    else:
+        pt = parts[0]
+    if pt in PRIM or (pt and ranged_bounds(pt)):
+        return pt
+    return None
+
+
 def type_range(ty):
     return PRIM.get(ty)
 
@@ -122,9 +154,10 @@ STD_RANGES = {
 
 class AV:
     """Abstract value."""
-    __slots__ = ("iv", "sid", "rel", "cmp", "ref", "ovf", "tr", "mod")
+    __slots__ = ("iv", "sid", "rel", "cmp", "ref", "ovf", "tr", "mod", "pay")
 
-    def __init__(self, iv=None, sid=None, rel=frozenset(), cmp=None, ref=None, ovf=None, tr=None, mod=None):
+    def __init__(self, iv=None, sid=None, rel=frozenset(), cmp=None, ref=None, ovf=None, tr=None, mod=None, pay=None):
+        self.pay = pay      # success payload of an Option/Result/ControlFlow: None = unknown, "bot" = none, (lo, hi)
         self.mod = mod      # (bits, virtual interval): value == v (mod 2^bits), v in interval
         self.iv = iv        # (lo, hi) or None
         self.sid = sid      # sequence identity
@@ -140,7 +173,7 @@ class AV:
     def __eq__(self, o):
         return (isinstance(o, AV) and self.iv == o.iv and self.sid == o.sid and self.rel == o.rel
                 and self.cmp == o.cmp and self.ref == o.ref and self.ovf == o.ovf and self.tr == o.tr
-                and self.mod == o.mod)
+                and self.mod == o.mod and self.pay == o.pay)
 
     def __repr__(self):
         return "AV(iv=%s sid=%s rel=%s%s%s)" % (self.iv, self.sid, set(self.rel) or "",
@@ -156,6 +189,16 @@ def hull(a, b):
     return (min(a[0], b[0]), max(a[1], b[1]))
 
 
+def join_pay(a, b):
+    if a == "bot":
+        return b
+    if b == "bot":
+        return a
+    if a is None or b is None:
+        return None
+    return hull(a, b)
+
+
 def join_av(a, b):
     if a == b:
         return a
@@ -163,24 +206,26 @@ def join_av(a, b):
               a.cmp if a.cmp == b.cmp else None, a.ref if a.ref == b.ref else None,
               (a.ovf or b.ovf) if (a.ovf is not None and b.ovf is not None) else None,
               hull(a.tr, b.tr),
-              (a.mod[0], hull(a.mod[1], b.mod[1])) if (a.mod and b.mod and a.mod[0] == b.mod[0]) else None)
+              (a.mod[0], hull(a.mod[1], b.mod[1])) if (a.mod and b.mod and a.mod[0] == b.mod[0]) else None,
+              join_pay(a.pay, b.pay))
 
 
 class State:
-    __slots__ = ("vals", "lens", "alias")
+    __slots__ = ("vals", "lens", "alias", "ver")
 
     def __init__(self):
         self.vals = {}    # place key -> AV
         self.lens = {}    # sid -> (lo, hi)
         self.alias = {}   # local -> root place key it is a copy of
+        self.ver = {}     # local -> token of the last write touching it
 
     def copy(self):
         s = State()
-        s.vals = dict(self.vals); s.lens = dict(self.lens); s.alias = dict(self.alias)
+        s.vals = dict(self.vals); s.lens = dict(self.lens); s.alias = dict(self.alias); s.ver = dict(self.ver)
         return s
 
     def __eq__(self, o):
-        return self.vals == o.vals and self.lens == o.lens and self.alias == o.alias
+        return self.vals == o.vals and self.lens == o.lens and self.alias == o.alias and self.ver == o.ver
 
     def len_of(self, sid):
         return self.lens.get(sid, LEN_TOP)
@@ -207,6 +252,7 @@ def _rename_state(st, m):
         n = m.get(sid, sid)
         s.lens[n] = ln if n not in s.lens else hull(s.lens[n], ln)
     s.alias = st.alias
+    s.ver = st.ver
     return s
 
 
@@ -240,6 +286,9 @@ def join_state(a, b, at=None):
     for k in a.alias.keys() & b.alias.keys():
         if a.alias[k] == b.alias[k]:
             s.alias[k] = a.alias[k]
+    for k in a.ver.keys() | b.ver.keys():
+        va, vb = a.ver.get(k), b.ver.get(k)
+        s.ver[k] = va if va == vb else ("join", at, k)
     return s
 
 
@@ -330,6 +379,7 @@ class Analyzer:
         self._sid_memo = {}
         self.done = False
         self.bailed = False
+        self._loc = ("entry",)
 
     # ---------------------------------------------------------------- types
     def local_ty(self, l):
@@ -394,6 +444,17 @@ class Analyzer:
         if not ps:
             return None
         last = ps[-1]
+        if isinstance(last, dict) and "f" in last and last.get("adt", "").startswith("util::rangeint::ri") \
+                and last.get("n") in ("val", "min", "max"):
+            # ranged integers: the declared bounds are the contract of the
+            # value and of the debug-only tracked min/max (E2 verifies it)
+            pre = {"l": p["l"]}
+            if len(ps) > 1:
+                pre["p"] = ps[:-1]
+            rb = ranged_bounds(self.place_ty(pre) or "")
+            if rb is not None:
+                return (rb[1], rb[2])
+            return None
         if isinstance(last, dict) and "f" in last and "adt" in last:
             var = None
             if len(ps) >= 2 and isinstance(ps[-2], dict) and "d" in ps[-2]:
@@ -415,8 +476,12 @@ class Analyzer:
             v = st.vals.get(st.alias[k[0]])
             if v is not None:
                 return v
-        # deref of a reference with known target
         ps = p.get("p") or []
+        if len(k) == 3 and k[2] == ("f", 0) and isinstance(k[1], tuple) and k[1][0] == "d" and k[1][1] in ("Some", "Ok", "Continue"):
+            base = st.vals.get((k[0],))
+            if base is not None and isinstance(base.pay, tuple):
+                return AV(iv=base.pay)
+        # deref of a reference with known target
         if ps and ps[0] == "*":
             base = st.vals.get((p["l"],))
             if base is not None and base.ref is not None:
@@ -462,6 +527,7 @@ class Analyzer:
 
     # ------------------------------------------------------------- writing
     def kill_prefix(self, st, k):
+        st.ver[k[0]] = self._loc
         n = len(k)
         for kk in [kk for kk in st.vals if kk[:n] == k]:
             del st.vals[kk]
@@ -488,7 +554,7 @@ class Analyzer:
         # a partial store invalidates cached facts about enclosing places
         for i in range(1, len(k)):
             st.vals.pop(k[:i], None)
-        st.vals[k] = AV(v.iv, v.sid, v.rel, v.cmp, v.ref, v.ovf, v.tr)
+        st.vals[k] = AV(v.iv, v.sid, v.rel, v.cmp, v.ref, v.ovf, v.tr, v.mod, v.pay)
 
     # ------------------------------------------------------------ rvalues
     def eval_rvalue(self, st, rv, lhs, where):
@@ -588,7 +654,7 @@ class Analyzer:
                 t = _decide(op, a.iv, b.iv)
                 if t is True: res = (1, 1)
                 elif t is False: res = (0, 0)
-            return AV(iv=res, cmp=("cmp", op, _opkey(rv["a"]), _opkey(rv["b"])))
+            return AV(iv=res, cmp=("cmp", op, self._cmpkey(st, rv["a"]), self._cmpkey(st, rv["b"])))
         if op == "Cmp":
             return TOP
         base = op.replace("WithOverflow", "").replace("Unchecked", "")
@@ -645,8 +711,21 @@ class Analyzer:
             return AV(iv=r, rel=rel)
         return AV(iv=tr)
 
+    def _cmpkey(self, st, op):
+        """operand key for branch refinement: constants, or the place (resolved
+        through the alias map to the place it was copied from) together with the
+        version of that place's base local, so that a later write makes the
+        recorded comparison stale"""
+        k = _opkey(op)
+        if k is None or k[0] != "place":
+            return k
+        pk = k[1]
+        root = st.alias[pk[0]] if (len(pk) == 1 and pk[0] in st.alias) else None
+        return ("place", pk, st.ver.get(pk[0]), root, st.ver.get(root[0]) if root else None)
+
     # ------------------------------------------------------------ transfer
     def transfer_stmt(self, st, s, where):
+        self._loc = where
         kind = s["s"]
         if kind == "=":
             lhs, rv = s["lhs"], s["rv"]
@@ -665,8 +744,14 @@ class Analyzer:
                     pre = k
                     # enum variants are stored under a downcast projection
                     for i, v2 in enumerate(vals):
-                        st.vals[pre + (("v", rv.get("variant")), ("f", i))] = v2
+                        st.vals[pre + (("d", rv.get("variant")), ("f", i))] = v2
                         st.vals[pre + (("f", i),)] = v2
+                    var = rv.get("variant")
+                    if rv.get("adt", "").endswith(("option::Option", "result::Result", "ops::ControlFlow")):
+                        if var in ("Some", "Ok", "Continue") and vals:
+                            st.vals[pre] = AV(pay=vals[0].iv)
+                        else:
+                            st.vals[pre] = AV(pay="bot")
                 elif rv.get("agg") == "tuple":
                     for i, v2 in enumerate(vals):
                         st.vals[k + (("f", i),)] = v2
@@ -710,6 +795,20 @@ class Analyzer:
         r = self.std_call(st, t, path, avs, dest_ty, where)
         if r is not None:
             return r
+        pt = payload_type(dest_ty)
+        if pt is not None:
+            a0 = avs[0] if avs else TOP
+            name = path.rsplit("::", 1)[-1]
+            if name in PAY_PASS and a0.pay is not None and path.startswith(("core::option::Option", "core::result::Result", "<core::result::Result", "<core::option::Option")):
+                return AV(pay=a0.pay, cmp=None)
+            if "::FromResidual<" in path:
+                return AV(pay="bot")
+            if t.get("rkrate") and callable(self.summaries):
+                sm = self.summaries(t.get("rkrate", "") + "::" + path, payload=True)
+                if sm is not None:
+                    return AV(pay=sm)
+            rb = ranged_bounds(pt)
+            return AV(pay=PRIM.get(pt) or ((rb[1], rb[2]) if rb else None))
         if dest_ty in PRIM and t.get("rkrate") and self.summaries is not None:
             key = t.get("rkrate", "") + "::" + path
             sm = self.summaries(key) if callable(self.summaries) else self.summaries.get(key)
@@ -794,7 +893,7 @@ class Analyzer:
         if path in ("<core::option::Option<T> as core::ops::Try>::branch",
                     "<core::result::Result<T, E> as core::ops::Try>::branch"):
             if a0.cmp and a0.cmp[0] in ("opt_len_ge", "res_len_ge"):
-                return AV(cmp=("cf_len_ge",) + a0.cmp[1:])
+                return AV(cmp=("cf_len_ge",) + a0.cmp[1:], pay=a0.pay)
             return None
         if path in ("core::str::<impl str>::as_bytes", "std::string::String::as_str",
                     "<std::vec::Vec<T, A> as core::ops::Deref>::deref",
@@ -825,6 +924,28 @@ class Analyzer:
                     st.lens[sid] = (max(0, hi.iv[0] - lo.iv[1]), max(0, min(hi.iv[1], ln[1]) - lo.iv[0]))
                 return AV(sid=sid)
             return self.top_of_type(dest_ty, tag=where, st=st)
+        if path == "core::ops::RangeInclusive::<Idx>::new" and len(avs) == 2:
+            if avs[0].iv is not None and avs[1].iv is not None:
+                return AV(cmp=("rangeincl", avs[0].iv, avs[1].iv))
+            return TOP
+        if path == "core::ops::RangeInclusive::<Idx>::contains" and len(avs) == 2:
+            rng = avs[0]
+            if rng.cmp is None and rng.ref is not None:
+                rv_ = st.vals.get(rng.ref)
+                rng = rv_ if rv_ is not None else rng
+            item = avs[1]
+            if rng.cmp is not None and rng.cmp[0] == "rangeincl" and item.ref is not None:
+                lo, hi = rng.cmp[1], rng.cmp[2]
+                # definitely-inside / definitely-outside
+                cur = self.read_place(st, _key_to_place(item.ref))
+                res = (0, 1)
+                if cur.iv is not None:
+                    if lo[1] <= cur.iv[0] and cur.iv[1] <= hi[0]:
+                        res = (1, 1)
+                    elif cur.iv[1] < lo[0] or cur.iv[0] > hi[1]:
+                        res = (0, 0)
+                return AV(iv=res, cmp=("inrange", ("place", item.ref), lo[0], hi[1]))
+            return AV(iv=(0, 1))
         if path in STD_RANGES:
             return AV(iv=STD_RANGES[path])
         if path in ("util::t::Constant::value", "util::t::Constant::bound") and a0.iv is not None:
@@ -1014,28 +1135,44 @@ class Analyzer:
             return None
         if k[0] == "const":
             return AV(iv=(k[1], k[1]))
-        p = _key_to_place(k[1])
-        return self.read_place(st, p)
+        for pk in self._valid_keys(st, k):
+            return self.read_place(st, _key_to_place(pk))
+        return None   # the compared place has been written since
+
+    def _valid_keys(self, st, k):
+        """the place keys recorded in a comparison operand that have not been
+        written since the comparison was evaluated"""
+        if len(k) == 2:
+            return [k[1]]
+        out = []
+        if st.ver.get(k[1][0]) == k[2]:
+            out.append(k[1])
+        if len(k) > 3 and k[3] is not None and st.ver.get(k[3][0]) == k[4]:
+            out.append(k[3])
+        return out
+
+    def _all_targets(self, st, k):
+        out = set()
+        for pk in self._valid_keys(st, k):
+            out |= self._targets(st, pk)
+        return out
 
     def _targets(self, st, pk):
         """All place keys denoting the same value as pk (aliases)."""
         out = {pk}
-        if len(pk) == 1:
-            root = st.alias.get(pk[0])
-            if root is not None:
-                out.add(root)
-                for a, r in st.alias.items():
-                    if r == root:
-                        out.add((a,))
-            for a, r in st.alias.items():
-                if r == pk:
-                    out.add((a,))
+        root = pk
+        if len(pk) == 1 and pk[0] in st.alias:
+            root = st.alias[pk[0]]
+            out.add(root)
+        for a, r in st.alias.items():
+            if r == root or r == pk:
+                out.add((a,))
         return out
 
     def _refine_key(self, st, k, iv):
         if k is None or k[0] == "const":
             return
-        for pk in self._targets(st, k[1]):
+        for pk in self._all_targets(st, k):
             cur = st.vals.get(pk)
             if cur is None:
                 cur = self.read_place(st, _key_to_place(pk))
@@ -1044,7 +1181,7 @@ class Analyzer:
             lo, hi = max(cur.iv[0], iv[0]), min(cur.iv[1], iv[1])
             if lo > hi:
                 continue
-            st.vals[pk] = AV((lo, hi), cur.sid, cur.rel, cur.cmp, cur.ref, cur.ovf, cur.tr)
+            st.vals[pk] = AV((lo, hi), cur.sid, cur.rel, cur.cmp, cur.ref, cur.ovf, cur.tr, cur.mod, cur.pay)
             for (s, off, kd) in cur.rel:
                 ln = st.len_of(s)
                 if kd == "eq":
@@ -1063,11 +1200,11 @@ class Analyzer:
                     elif kd == "eq":
                         pass
             return
-        for pk in self._targets(st, k[1]):
+        for pk in self._all_targets(st, k):
             cur = st.vals.get(pk)
             if cur is None:
                 cur = self.read_place(st, _key_to_place(pk))
-            st.vals[pk] = AV(cur.iv, cur.sid, cur.rel | frozenset(rels), cur.cmp, cur.ref, cur.ovf, cur.tr)
+            st.vals[pk] = AV(cur.iv, cur.sid, cur.rel | frozenset(rels), cur.cmp, cur.ref, cur.ovf, cur.tr, cur.mod, cur.pay)
             if cur.iv is not None:
                 for (s, off, kd) in rels:
                     ln = st.len_of(s)
@@ -1123,6 +1260,7 @@ class Analyzer:
                 outs[tg] = s2 if tg not in outs else join_state(outs[tg], s2, at=tg)
         elif tt == "call":
             where = (bi, "t")
+            self._loc = where
             r = self.transfer_call(st, t, where)
             if "dest" in t:
                 if isinstance(r, tuple):
